@@ -4,30 +4,26 @@
 
 // failed check (assertion): "an atomic write changed bits of other elements"
 #[test]
-fn kani_concrete_playback_bfv_adjacent_11091136556778068657() {
+fn kani_concrete_playback_bfv_adjacent_16428400036899787357() {
     let concrete_vals: Vec<Vec<u8>> = vec![
-        // 21ul
-        vec![21, 0, 0, 0, 0, 0, 0, 0],
-        // 4593601251173665628ul
-        vec![92, 11, 255, 255, 255, 191, 191, 63],
-        // 12132707210067182603ul
-        vec![11, 4, 224, 251, 236, 8, 96, 168],
-        // 3ul
-        vec![3, 0, 0, 0, 0, 0, 0, 0],
-        // 2095084ul
-        vec![236, 247, 31, 0, 0, 0, 0, 0],
-        // 0
-        vec![0],
-        // 0
-        vec![0],
+        // 10ul
+        vec![10, 0, 0, 0, 0, 0, 0, 0],
+        // 18446744073709551615ul
+        vec![255, 255, 255, 255, 255, 255, 255, 255],
+        // 18446744073709551613ul
+        vec![253, 255, 255, 255, 255, 255, 255, 255],
+        // 9ul
+        vec![9, 0, 0, 0, 0, 0, 0, 0],
+        // 1023ul
+        vec![255, 3, 0, 0, 0, 0, 0, 0],
         // 0
         vec![0],
         // 1
         vec![1],
-        // 8125232633715881467ul
-        vec![251, 245, 11, 242, 7, 160, 194, 112],
-        // 12132707210033627180ul
-        vec![44, 0, 224, 249, 236, 8, 96, 168],
+        // 18446744073709551615ul
+        vec![255, 255, 255, 255, 255, 255, 255, 255],
+        // 18446744073709551615ul
+        vec![255, 255, 255, 255, 255, 255, 255, 255],
     ];
     kani::concrete_playback_run(concrete_vals, crate::c13::q::bfv_adjacent);
 }
